@@ -68,6 +68,12 @@ class FrontGen:
                 for p in self.paths_of(t[1], want):
                     if len(p) < 3:
                         out.append([("f", n)] + p)
+            elif t[0] == "array" and t[1] in self.structs and t[1] != sname:
+                # an index in the MIDDLE of a path (v.arr[1].field, v.arr[1].inner.field)
+                k = t[2] if isinstance(t[2], int) else 3
+                for p in self.paths_of(t[1], want):
+                    if len(p) < 3:
+                        out.append([("f", n), ("il", self.rng.randint(0, max(0, k - 1)))] + p)
         return out
 
     # ---- literals --------------------------------------------------------------------
@@ -239,6 +245,17 @@ class FrontGen:
                         opts.append(("path", v, [("f", n), ("il", r.randint(0, max(0, k - 1)))]))
                         for lv in loopvars:
                             opts.append(("path", v, [("f", n), ("iv", lv)]))
+                    if at[0] == "array" and at[1] in self.structs and at[1] != t[1]:
+                        # index followed by further attributes (and a second index)
+                        k = at[2] if isinstance(at[2], int) else 3
+                        for n2, at2 in self.structs[at[1]]["attrs"]:
+                            ix = [("il", r.randint(0, max(0, k - 1)))] + [("iv", lv) for lv in loopvars]
+                            if at2 == ty:
+                                for e in ix:
+                                    opts.append(("path", v, [("f", n), e, ("f", n2)]))
+                            if at2[0] == "array" and ty == ("plain", at2[1]):
+                                for e in ix:
+                                    opts.append(("path", v, [("f", n), e, ("f", n2), ("il", r.randint(0, 2))]))
                     if at[0] == "plain" and at[1] in self.structs and at[1] != t[1]:
                         for n2, at2 in self.structs[at[1]]["attrs"]:
                             if at2 == ty:
